@@ -568,15 +568,15 @@ func (ec *EvalCtx) call(e *CExpr) Val {
 		old := n.eval(e.Args[0])
 		return TV{ec.valEq(cur, old, e), bt}
 	case "$open":
-		return TV{ec.chanField(argT(0), "open"), bt}
+		return TV{ec.chanFieldOf(arg(0), "open"), bt}
 	case "$len":
-		return TV{ec.chanField(argT(0), "len"), it}
+		return TV{ec.chanFieldOf(arg(0), "len"), it}
 	case "$cap":
-		return TV{ec.chanField(argT(0), "cap"), it}
+		return TV{ec.chanFieldOf(arg(0), "cap"), it}
 	case "$sent":
-		return TV{ec.chanField(argT(0), "sent"), it}
+		return TV{ec.chanFieldOf(arg(0), "sent"), it}
 	case "$rcvd":
-		return TV{ec.chanField(argT(0), "rcvd"), it}
+		return TV{ec.chanFieldOf(arg(0), "rcvd"), it}
 	case "$chval":
 		// $chval(c, k): the k-th value ever sent on c (channels of scalar element type)
 		v := arg(0)
@@ -588,6 +588,7 @@ func (ec *EvalCtx) call(e *CExpr) Val {
 		if !ok {
 			fail("$chval of a non-channel")
 		}
+		st.curChanElem = cht.Elem()
 		k := argT(1)
 		var rd func(t types.Type, prefix string) Val
 		rd = func(t types.Type, prefix string) Val {
@@ -806,6 +807,15 @@ func (ec *EvalCtx) lockKey(e *CExpr) string {
 	}
 	fail("cannot identify lock %s", e)
 	return ""
+}
+
+func (ec *EvalCtx) chanFieldOf(v Val, f string) Term {
+	tv, ok := v.(TV)
+	if !ok || tv.Typ == nil {
+		fail("channel ghost function applied to a value of unknown channel type")
+	}
+	ec.st.setChanElem(tv.Typ)
+	return ec.chanField(tv.T, f)
 }
 
 func (ec *EvalCtx) chanField(ch Term, f string) Term {
@@ -1042,6 +1052,17 @@ func (vc *VC) staticTargetKeys(tgt string, origin *ssa.Function, c *ssa.CallComm
 		}
 		return nil
 	}
+	if origin != nil && c == nil {
+		// the function's own modifies clause: names are its parameters / captured variables
+		typeOfName = func(n string) types.Type {
+			for _, p := range origin.Params {
+				if p.Name() == n {
+					return p.Type()
+				}
+			}
+			return nil
+		}
+	}
 	switch e.Kind {
 	case "ghost":
 		if gd := vc.cs.Ghosts[e.Name]; gd != nil && strings.HasPrefix(gd.Sort, "fun ") {
@@ -1057,13 +1078,13 @@ func (vc *VC) staticTargetKeys(tgt string, origin *ssa.Function, c *ssa.CallComm
 			return []string{"G:" + e.Name + "<"}, true
 		}
 		if e.Name == "$chan" {
-			return []string{"CH:sent", "CH:rcvd", "CHV:<"}, true
+			return []string{"CH:sent<", "CH:rcvd<", "CHV:<"}, true
 		}
 		if e.Name == "$open" {
-			return []string{"CH:open"}, true
+			return []string{"CH:open<"}, true
 		}
 		if e.Name == "$cap" {
-			return []string{"CH:cap"}, true
+			return []string{"CH:cap<"}, true
 		}
 		if e.Name == "$deref" && e.Args[0].Kind == "ident" {
 			if t := typeOfName(e.Args[0].Name); t != nil {
@@ -1154,4 +1175,38 @@ func (vc *VC) staticTargetKeys(tgt string, origin *ssa.Function, c *ssa.CallComm
 		return keys, true
 	}
 	return nil, false
+}
+
+type conjunct struct {
+	t    Term
+	text string
+}
+
+// evalConjuncts: the conjuncts of a boolean contract expression, with contract-level predicates unfolded (one obligation per conjunct).
+func (ec *EvalCtx) evalConjuncts(e *CExpr) []conjunct {
+	if e.Kind == "bin" && e.Op == "&&" {
+		return append(ec.evalConjuncts(e.Args[0]), ec.evalConjuncts(e.Args[1])...)
+	}
+	if e.Kind == "call" {
+		if cp := ec.st.vc.cs.Preds[e.Name]; cp != nil && len(cp.Formals) == len(e.Args) {
+			body, err := cp.Body.expr()
+			if err != nil {
+				fail("%v", err)
+			}
+			sub := ec.child()
+			for i, f := range cp.Formals {
+				sub.bound[f.Name] = ec.eval(e.Args[i])
+			}
+			sub.names = map[string]Val{}
+			if p := ec.st.vc.pkgByShort(cp.Pkg); p != nil {
+				sub.pkg = p
+			}
+			var out []conjunct
+			for _, c := range sub.evalConjuncts(body) {
+				out = append(out, conjunct{c.t, e.Name + ": " + c.text})
+			}
+			return out
+		}
+	}
+	return []conjunct{{ec.evalBool(e), e.String()}}
 }
